@@ -1,7 +1,7 @@
 ----------------------------- MODULE IdlProgGen -----------------------------
 EXTENDS IdlProg
-ASSUME ndJsonSerialize("idl_prog.ndjson", SetToSeq({[desc |-> d, toks |-> TokD(d)] : d \in Programs}))
-ASSUME PrintT(<<"PROGRAMS", Cardinality(Programs), "types", NT>>)
+ASSUME ndJsonSerialize("idl_prog.ndjson", SetToSeq(Cases))
+ASSUME PrintT(<<"PROGRAMS", Cardinality(Programs), "cases", Cardinality(Cases), "types", NT>>)
 VARIABLE d
 Init == d = 0
 Next == d' = d
